@@ -79,6 +79,9 @@ def goValue (p : Prog) (code : String) : RV :=
   let body' := if brace then (body.dropEnd 2).toString else body
   -- `alias.Sym` or `alias.Sym.Field`
   match body'.splitOn "." with
+  | [s] =>
+    -- a symbol of the generated package itself (`"."` reference): no alias, unlabelled
+    if brace then .anon amp "" else .anon (amp || s == "Global") s
   | [a, s] =>
     let path := (p.imports.lookup a).getD a
     if brace then .anon amp ""
